@@ -263,6 +263,17 @@ def run_unit_retry(name, **kw):
         kw2["rlimit"] = (kw.get("rlimit") or getattr(load_unit(name), "RLIMIT", 10)) * 4
         ur2 = run_unit(name, **kw2)
         ur2.retried = True
+        if ur2.status == "rlimit" and not kw.get("seed"):
+            # the solver still gives up: the same query under other random seeds.  A run that completes is as good as any - a
+            # proof is a proof, a refuted obligation is refuted - only "gave up" carries no information
+            base = kw.get("rlimit") or getattr(load_unit(name), "RLIMIT", 10)
+            with concurrent.futures.ThreadPoolExecutor(max_workers=3) as ex:
+                futs = [ex.submit(run_unit, name, **dict(kw, seed=sd, rlimit=base * 2, tag=(kw.get("tag") or "") + f"retry{sd}")) for sd in (11, 12, 13)]
+                for f in futs:
+                    r = f.result()
+                    if r.status == "ok":
+                        r.retried = True
+                        return r
         return ur2
     return ur
 
